@@ -76,6 +76,7 @@ func (ds *dataStore) AppendRecord(rec *Record) (pos Position, err error) {
 		ds.newHead++
 		logger.Infof("rotate to %d, size %d, new rec size %d", ds.newHead, currOffset, size)
 		currOffset = 0
+		verifPoint("data.rotate", ds.bucketID, ds.newHead-1)
 		go ds.flush(ds.newHead-1, true)
 	}
 	pos.ChunkID = ds.newHead
@@ -97,6 +98,8 @@ func (ds *dataStore) AppendRecord(rec *Record) (pos Position, err error) {
 }
 
 func (ds *dataStore) flush(chunk int, force bool) error {
+	verifPoint("data.flush.enter", ds.bucketID, chunk, force)
+	defer verifPoint("data.flush.exit", ds.bucketID, chunk, force)
 	if ds.wbufSize == 0 {
 		return nil
 	}
